@@ -329,3 +329,87 @@ def import_rules(ctx, new_rule, fns, why, keep=None, floor=1):
                nontrivial='floor' not in s['instance'])
     ctx.floor(new_rule, 'obligations imported', n, floor)
     return n
+
+
+_FINDER_CACHE = {}
+
+
+def finder_summary(facts, name):
+    """Summary of a crate function that returns the FIRST element of a list parameter whose origin and destination squares equal two of
+    its other parameters - a first-match search written as a loop (or anything the engine walks like one) instead of `Iterator::find`.
+    Returns {'table': truth table over (from equal, to equal), 'params': {'from_square': i, 'to_square': j}, 'list_param': k} or None."""
+    key = (id(facts), name)
+    if key in _FINDER_CACHE:
+        return _FINDER_CACHE[key]
+    from sa.sym import Engine as _E, PathLimit as _PL
+    res = None
+    f = facts.fns.get(name)
+    if f is not None and f.crate == 'chess' and f.kind != 'Closure' and f.local_ty(0).startswith('std::option::Option<&') and f.cfg.has_loops():
+        try:
+            outs = _E(facts, readonly={CHESSMOVE + '::from_square', CHESSMOVE + '::to_square'}).run(name)
+        except _PL:
+            outs = []
+
+        def st(t_):
+            while isinstance(t_, tuple) and t_ and (t_[0] in ('ref', 'der', 'K') or (t_[0] == 'fld' and t_[2] == '0' and t_[1][0] != 'agg')
+                                                    or (t_[0] == 'call' and t_[1].endswith('Clone>::clone'))):
+                t_ = t_[2][0] if t_[0] == 'call' else t_[1]
+            return t_
+
+        def atom(t_):
+            if t_[0] == 'eq':
+                a, b = t_[1], t_[2]
+            elif t_[0] == 'bin' and t_[1] == 'Eq':
+                a, b = t_[2], t_[3]
+            else:
+                return None
+            for x, y in ((a, b), (b, a)):
+                x, y = st(x), st(y)
+                if x[0] == 'call' and x[1] in (CHESSMOVE + '::from_square', CHESSMOVE + '::to_square') and is_iteration_element(x[2][0]) and y[0] == 'p':
+                    return (x[1].rsplit('::', 1)[1], y[1])
+            return None
+        rows, params, ok, lists = [], {}, bool(outs), set()
+        for o in outs:
+            if o.kind == 'abort':
+                continue
+            env = {}
+            for a, v in o.conds:
+                k = atom(a)
+                if k is None:
+                    if a[0] == 'discr':
+                        continue          # iterator exhausted / element present
+                    ok = False
+                    continue
+                params.setdefault(k[0], k[1])
+                if params[k[0]] != k[1] or v not in (0, 1, True, False):
+                    ok = False
+                env[k[0]] = bool(v)
+            for src in iteration_sources(o):
+                for s_ in subterms(src[1]):
+                    if s_[0] == 'p':
+                        lists.add(s_[1])
+            v = o.value
+            if o.kind == 'return' and v is not None and v[0] == 'agg' and v[3] == 'Some':
+                ok = ok and is_iteration_element(dict(v[4])['0'])
+                rows.append((env, True))
+            elif o.kind == 'backedge':
+                rows.append((env, False))
+            elif o.kind == 'return' and v is not None and v[0] == 'agg' and v[3] == 'None':
+                continue
+            else:
+                ok = False
+        table = {}
+        for va in (False, True):
+            for vb in (False, True):
+                full = {'from_square': va, 'to_square': vb}
+                hits = {r for env, r in rows if all(full[k] == x for k, x in env.items())}
+                table[(va, vb)] = hits.pop() if len(hits) == 1 else None
+        if ok and len(lists) == 1 and set(params) == {'from_square', 'to_square'}:
+            res = {'table': table, 'params': params, 'list_param': next(iter(lists))}
+    _FINDER_CACHE[key] = res
+    return res
+
+
+def find_events(facts, o):
+    """first-match searches on a path: calls of Iterator::find and calls of crate functions with a finder summary"""
+    return [e for e in o.events if e[0] == 'call' and ((e[1].endswith('::find') and 'Iterator' in e[1]) or finder_summary(facts, e[1]) is not None)]
